@@ -4,7 +4,7 @@ search: all real decoders, the dispatcher and the streaming thread on structured
 import vlib, time, signal
 from props import engine_common as ec, engine_prove
 
-MODULES = ['IRModel.Props.C08']
+MODULES = ['IRModel.Props.C08', 'IRModel.Props.Manchester']
 
 
 class Hang(Exception):
